@@ -275,6 +275,23 @@ fn main() {
                 let f = gen::gen(fam, n, &mut rng);
                 both(ctx, &mut local, n, |ty| Ev::new("canon", ty, n).st(g.name()).tab(&f));
             }
+            // near misses of a symmetry (symmetric in a pair except on a cube of the other variables): class
+            // invariance under random group elements needs no oracle, so these are cheap at the expensive sizes
+            if n >= 6 && n <= 8 {
+                let extra = match (g, n) {
+                    (Group::Npn, 8) => 12,
+                    (Group::Npn, _) => 24,
+                    _ => 12,
+                } * if thorough { 16 } else { 1 };
+                for i in 0..extra {
+                    if i % chunks != c {
+                        continue;
+                    }
+                    let f = gen::gen(Fam::NearPairSym, n, &mut rng);
+                    both(ctx, &mut local, n, |ty| meta_event(ty, n, g, &f, &mut rng.clone()));
+                    rng.next_u64();
+                }
+            }
             // functions of three variables placed on triples of variables (the others vacuous): their tables
             // are full of equal and constant words, where early exits and word-wise shortcuts go wrong.
             // N and P: every function on every triple for n = 7, 8 (thorough: also 9 for P, to 10 for N);
